@@ -5,6 +5,7 @@ import (
 	"math"
 	"math/bits"
 	"runtime"
+	"strings"
 	"sync"
 	"sync/atomic"
 
@@ -284,3 +285,52 @@ func marathon(c MarathonCase, o *vk.Obs, tick func()) string {
 
 // marathonAdds counts the Adds of all marathon cases of this process (evidence).
 var marathonAdds atomic.Int64
+
+// IndepCase: N counters constructed one after the other in this process, each
+// fed the same stream of D distinct values through a buffer of Size (D far
+// above Size, so every counter makes dozens of coin flips).  The property
+// speaks of "repeated independent runs ... independent random seeds": the
+// trajectories of two counters must not be copies of one another.  With fair
+// independent coins two given counters agree on the whole (Len, Count)
+// trajectory with probability far below 2^-40; a construction scheme whose
+// seeds repeat with some period p makes counter i and counter i+p agree for
+// every i.  The check looks for a period: some p in 1..N/2 such that every
+// pair (i, i+p) has identical trajectories.
+type IndepCase struct {
+	N    int `json:"n"`
+	Size int `json:"size"`
+	D    int `json:"d"`
+}
+
+func runIndep(c IndepCase, o *vk.Obs) string {
+	n, size, d := min(max(c.N, 4), 4096), clampSize(c.Size), max(c.D, 64)
+	traj := make([]string, n)
+	for i := range traj {
+		ctr := distinct.NewCounter[int](size)
+		var sb strings.Builder
+		for v := 0; v < d; v++ {
+			ctr.Add(v)
+			if v%8 == 7 {
+				fmt.Fprintf(&sb, "%d/%d,", ctr.Len(), ctr.Count())
+			}
+		}
+		traj[i] = sb.String()
+	}
+	for p := 1; p <= n/2; p++ {
+		all := true
+		for i := 0; i+p < n && all; i++ {
+			all = traj[i] == traj[i+p]
+		}
+		if all {
+			return fmt.Sprintf("%d counters of size %d constructed one after the other and fed the same %d distinct values: counter i and counter i+%d have identical (Len, Count) trajectories for every i - the runs are not independent (their coin sequences repeat with period %d)", n, size, d, p, p)
+		}
+	}
+	distinctTraj := map[string]bool{}
+	for _, t := range traj {
+		distinctTraj[t] = true
+	}
+	if len(distinctTraj) > n/2 {
+		o.NonTrivial()
+	}
+	return ""
+}
